@@ -66,7 +66,7 @@ def semop(an):
 INT_CHECKED = {"checked_add", "checked_sub", "checked_mul", "checked_pow"}
 
 
-@rule("OP-ERR", ["C15"], "integer arithmetic arms: checked op -> documented error kind, exact zero/overflow case table")
+@rule("OP-ERR", ["C15", "C11"], "integer arithmetic arms: checked op -> documented error kind, exact zero/overflow case table")
 def op_err(ctx, r):
     arms = _arms(ctx, r)
     if arms is None:
